@@ -14,6 +14,7 @@ HANDLERS = {
     "dec": ("harness.py.dec_cmd", "run"),
     "rt": ("harness.py.dec_cmd", "run_rt"),
     "lcd_py": ("harness.py.lcd_cmd", "run"),
+    "kbd_py": ("harness.py.kbd_cmd", "run"),
 }
 
 
